@@ -16,7 +16,7 @@ RULE = (
     "switch) for each of the six axis ends; everyday parameters (radius on a 1/8 grid, round n); radii adjusted by "
     "< 1e-9 so that one vertex coordinate lies within an ulp of a rounding boundary of the 10-digit Point hash; an "
     "axis Vector object reused after an earlier build and an in-place edit; Sphere over n1 in 3..12, n2 in 2..5; Parallelogram/Parallelepiped over "
-    "independent lattice edge vectors. Oracle (closed forms in floating point, relative 1e-9): vertex/edge/face "
+    "independent lattice edge vectors, a quarter of them with two long edges a few degrees apart (components <= 8); the same round builder called at two centres -1 / -2 apart (colliding Point hashes) within one case. Oracle (closed forms in floating point, relative 1e-9): vertex/edge/face "
     "counts, every vertex at distance r from the axis/centre and in the right plane (1e-9 absolute x scale), equal "
     "angular steps 2pi/n around the centre, Sphere rings at latitudes i*pi/(2 n2), apex / top circle at centre + "
     "height vector, areas and volumes of the inscribed n-gon shapes, arguments unchanged by the call. "
@@ -397,7 +397,10 @@ def _near_parallel(draw, v1):
     k = draw(st.sampled_from((1, 1, 2, 3)))
     w = tuple(F(c, 4) for c in draw(gen.direction(2)))
     assume(not X.is_zero(X.cross(v1, w)))
-    return X.add(X.mul(k * draw(st.sampled_from((2, 3, 4))), v1), w)
+    v2 = X.add(X.mul(k * draw(st.sampled_from((1, 2, 3))), v1), w)
+    # inside the lattice range of the edge vectors (|c| <= 8): the two edges then enclose at least 0.25 / 14 rad
+    assume(max(abs(c) for c in v2) <= 8 and max(abs(c) for c in v1) <= 8)
+    return v2
 
 
 @st.composite
@@ -411,7 +414,7 @@ def ppd_case(draw):
         if draw(st.booleans()):
             v1, v2, v3 = draw(st.permutations([v1, v2, v3]))
     assume(X.det3(v1, v2, v3) != 0)
-    assume(max(abs(c) for v in (v1, v2, v3) for c in v) <= 40)
+    assume(max(abs(c) for v in (v1, v2, v3) for c in v) <= 8)
     return ("Parallelepiped", p, v1, v2, v3)
 
 
